@@ -14,7 +14,8 @@ inductive Reachable : St → Prop
   | init (src : Src) : Reachable (St.init src)
   | evolve {s : St} (src' : Src) : Reachable s → Reachable { s with src := src' }
   | backup {s : St} (o : BOpts) (now : Nat) : Reachable s → s.last < now →
-      (o.quick = true → QuickDetectable s.repo s.src now) → Reachable (backupStep s o now)
+      (o.quick = true → o.full = false → QuickDetectable s.repo s.src now) →
+      Reachable (backupStep s o now)
 
 theorem reachable_sinv {s : St} (h : Reachable s) : SInv s := by
   induction h with
@@ -120,7 +121,7 @@ theorem find_filter {α} (p q : α → Bool) (l : List α) :
   | nil => rfl
   | cons a t ih =>
     by_cases hp : p a = true <;> by_cases hq : q a = true <;>
-      simp [List.filter_cons, List.find?_cons, hp, hq, ih]
+      simp [hp, hq, ih]
 
 /-! ### single-file damages -/
 
